@@ -215,7 +215,7 @@ def parse_output(out: str, harness_names):
     return res
 
 
-BATCH = 60   # kani-driver keeps every harness' artefacts in memory: 250 harnesses in one
+BATCH = 120  # kani-driver keeps every harness' artefacts in memory: 250 harnesses in one
              # invocation reached 18 GB and were OOM-killed (measured)
 
 
